@@ -60,12 +60,13 @@ theorem stop_of_rst {s : MsgLayer.State} (hinv : MsgLayer.Inv s) {e : Exchange} 
       have h2 := List.find?_some hf
       simp only [Bool.and_eq_true, beq_iff_eq] at h2
       rw [map_inj_of_nodup hinv.n.exNodup h1 he h2.1]
-  have hdup : isDup s e.remote w = false := by simp [isDup, isRequest, hc]
-  have hreq : isRequest w.code = false := by simp [isRequest, hc]
+  have hdup : isDup s e.remote w = false := by simp [isDup, dedupable, isRequest, hc]
+  have hreq : dedupable w = false := by simp [dedupable, isRequest, hc]
+  have hfit : fitsReply w = true := by simp [fitsReply, hw, hc]
   have hrecv : (MsgLayer.recv s e.remote false w).2 =
       (removeExchange s e.remote w).2 ++ (recvCode (removeExchange s e.remote w).1 e.remote false w).2 := by
     unfold MsgLayer.recv
-    simp only [hdup, hreq, Bool.false_eq_true, ↓reduceIte, hw, beq_self_eq_true, Bool.or_true]
+    simp only [hdup, hreq, Bool.false_eq_true, ↓reduceIte, hfit]
   have hrem : (removeExchange s e.remote w).2 =
       (runMonitor (dropExchange s e.remote w.mid) (.srv sv)).2 ++
       (continueBacklog (runMonitor (dropExchange s e.remote w.mid) (.srv sv)).1 e.remote).2 := by
@@ -85,14 +86,16 @@ theorem stop_of_same_token {s : MsgLayer.State} {remote : Remote} {w : Wire} {i 
   have hc0 : (w.code == 0) = false := by
     simp only [isRequest, Bool.and_eq_true, decide_eq_true_eq] at hreq
     simp; omega
-  have hna : (w.mtype == .ack || w.mtype == .rst) = false := by
-    rcases ht with ht | ht <;> simp [ht]
+  have hna : fitsReply w = false := by
+    rcases ht with ht | ht <;> simp [fitsReply, ht]
+  have hdd : dedupable w = true := by
+    rcases ht with ht | ht <;> simp [dedupable, hreq, ht]
   have hcn : (w.mtype == .con || w.mtype == .non) = true := by
     rcases ht with ht | ht <;> simp [ht]
   have hrecv : ∃ s0 : MsgLayer.State, s0.incoming = s.incoming ∧
       (MsgLayer.recv s remote mcl w).2 = (recvCode s0 remote mcl w).2 := by
     unfold MsgLayer.recv
-    simp only [hdup, hreq, Bool.false_eq_true, ↓reduceIte, hna, List.nil_append]
+    simp only [hdup, hdd, Bool.false_eq_true, ↓reduceIte, hna, List.nil_append]
     refine ⟨_, ?_, rfl⟩
     rfl
   obtain ⟨s0, hinc0, hrecv⟩ := hrecv
@@ -101,9 +104,11 @@ theorem stop_of_same_token {s : MsgLayer.State} {remote : Remote} {w : Wire} {i 
     simp only [hc0, Bool.false_and, Bool.false_eq_true, ↓reduceIte, hreq, hcn, Bool.and_self]
   simp only [MsgLayer.handle, hs, Bool.false_eq_true, ↓reduceIte]
   rw [hrecv, hcode]
+  have hq := (fireEmptyAck_Quiet s0 remote w.token).inc
   unfold processRequest
   dsimp only
-  split <;> simp [tokenProcessRequest, hinc0, hf]
+  apply List.mem_append_right
+  split <;> simp [tokenProcessRequest, hq, hinc0, hf]
 
 theorem stops_tokenDispatchError {s : MsgLayer.State} (hs : s.shutTok = false) (remote : Remote)
     (k : ErrKind) {i : InReq} (hi : i ∈ s.incoming) (hr : i.remote = remote) :
